@@ -416,75 +416,156 @@ def seriesDuring (s : Series) (e : Except Err Epochs) : String :=
       let k := ((r.blocks.headD []).headD []).length
       s!"ok TS:{r.unit.name}:{r.t0}:" ++ showBlocks (if e.scalar then "s" else toString r.blocks.length) (toString k) r.blocks
 
-def handleOne (args : List String) : String :=
-  match args with
-  | ["index_at", "uaxis", a, q] => match parseU? a with
-    | some a => match parseQuery? a.unit q with
-      | some (q, sc) => match a.indexAt q with
-        | .ok idx => if sc then s!"ok i:{idx.headD 0}" else "ok a:" ++ showIntList idx
-        | .error e => showErr e
-      | none => "bad-op"
+/-! ### containers, lookups as functions of the container's CURRENT contents -/
+
+/-- what a lookup is asked of: the state of the specification is the contents only (sample times,
+attributes that describe them, the parallel data) — no memo, no flag, no identity -/
+inductive Cont where
+  | uaxis (a : UAxis)
+  | tarray (t : C01.TVal)
+  | series (s : Series)
+  | events (ev : Events)
+  deriving Repr, DecidableEq
+
+/-- the container tokens that follow `<op> <kind>`; returns the container and the remaining tokens -/
+def parseCont? (kind : String) (toks : List String) : Option (Cont × List String) :=
+  match kind, toks with
+  | "uaxis", a :: rest => (parseU? a).map fun a => (.uaxis a, rest)
+  | "tarray", t :: rest => (C01.parseT? t).map fun t => (.tarray t, rest)
+  | "series", a :: d :: rest => match parseU? a, parseD? d with
+    | some a, some d => some (.series { axis := a, data := d }, rest)
+    | _, _ => none
+  | "events", t :: d :: rest => match C01.parseT? t, parseD? d with
+    | some t, some d => some (.events { time := t.ps, unit := t.unit, data := d }, rest)
+    | _, _ => none
+  | _, _ => none
+
+def lookupUAxis (a : UAxis) (op : String) (rest : List String) : String :=
+  match op, rest with
+  | "index_at", [q] => match parseQuery? a.unit q with
+    | some (q, sc) => match a.indexAt q with
+      | .ok idx => if sc then s!"ok i:{idx.headD 0}" else "ok a:" ++ showIntList idx
+      | .error e => showErr e
     | none => "bad-op"
-  | ["index_at_bool", "uaxis", a, q] => match parseU? a with
-    | some a => match parseQuery? a.unit q with
-      | some (q, _) => match a.indexAtBool q with
-        | .ok m => "ok B:" ++ showBoolList m
-        | .error e => showErr e
-      | none => "bad-op"
+  | "index_at_bool", [q] => match parseQuery? a.unit q with
+    | some (q, _) => match a.indexAtBool q with
+      | .ok m => "ok B:" ++ showBoolList m
+      | .error e => showErr e
     | none => "bad-op"
-  | ["index_at_cur", "uaxis", a, q] => match parseU? a with
-    | some a => match parseQuery? a.unit q with
-      | some (q, sc) => match a.indexAtCurrent q with
-        | .ok idx => if sc then s!"ok i:{idx.headD 0}" else "ok a:" ++ showIntList idx
-        | .error e => showErr e
-      | none => "bad-op"
+  | "index_at_cur", [q] => match parseQuery? a.unit q with
+    | some (q, sc) => match a.indexAtCurrent q with
+      | .ok idx => if sc then s!"ok i:{idx.headD 0}" else "ok a:" ++ showIntList idx
+      | .error e => showErr e
     | none => "bad-op"
-  | ["index_at", "tarray", t, mode, q, tol] => match C01.parseT? t with
-    | some t => match parseQuery? t.unit q, parseTol? t.unit tol with
-      | some (q, _), some tol => tarrayIndexAt t.ps mode q tol
-      | _, _ => "bad-op"
+  | "slice_during", ep => match parseEpochs? ep with
+    | some e => withScalarEpoch e fun s t => let (lo, hi) := a.sliceDuring s t; showPos lo hi
     | none => "bad-op"
-  | "slice_during" :: "uaxis" :: a :: ep => match parseU? a, parseEpochs? ep with
-    | some a, some e => withScalarEpoch e fun s t => let (lo, hi) := a.sliceDuring s t; showPos lo hi
-    | _, _ => "bad-op"
-  | "slice_during_cur" :: "uaxis" :: a :: ep => match parseU? a, parseEpochs? ep with
-    | some a, some e => withScalarEpoch e fun s t => match a.sliceDuringCurrent s t with
+  | "slice_during_cur", ep => match parseEpochs? ep with
+    | some e => withScalarEpoch e fun s t => match a.sliceDuringCurrent s t with
       | .ok (lo, hi) => showPos lo hi
       | .error er => showErr er
-    | _, _ => "bad-op"
-  | "slice_during" :: "tarray" :: t :: ep => match C01.parseT? t, parseEpochs? ep with
-    | some t, some e => withScalarEpoch e fun s p => let (lo, hi) := sliceDuring t.ps s p; showPos lo hi
-    | _, _ => "bad-op"
-  | "slice_during_cur" :: "tarray" :: t :: ep => match C01.parseT? t, parseEpochs? ep with
-    | some t, some e => withScalarEpoch e fun s p => let (lo, hi) := sliceDuringCurrent t.ps s p; showPos lo hi
-    | _, _ => "bad-op"
-  | ["at", "uaxis", a, q] => match parseU? a with
-    | some a => match parseQuery? a.unit q with
-      | some (q, sc) => uaxisAt a q sc
-      | none => "bad-op"
     | none => "bad-op"
-  | ["at", "tarray", t, q, tol] => match C01.parseT? t with
-    | some t => match parseQuery? t.unit q, parseTol? t.unit tol with
-      | some ([q], _), some tol => showT t.unit false (sel t.ps (indexClosest t.ps q tol))
-      | some (q, _), some tol =>
-        if q.length ≠ t.ps.length then showErr .valueError
-        else showT t.unit false (sel t.ps (indexClosest2 t.ps q tol))
-      | _, _ => "bad-op"
+  | "at", [q] => match parseQuery? a.unit q with
+    | some (q, sc) => uaxisAt a q sc
     | none => "bad-op"
-  | ["at", "series", a, d, q] => match parseU? a, parseD? d with
-    | some a, some d => match parseQuery? a.unit q with
-      | some (q, sc) => seriesAt { axis := a, data := d } q sc
-      | none => "bad-op"
+  | "during", ep => match parseEpochs? ep with
+    | some e => uaxisDuring a e
+    | none => "bad-op"
+  | "getitem", ["int", k] => match k.toInt? with
+    | some k => match normKey a.n k with
+      | .ok i => showT a.unit true [a.sample i]
+      | .error e => showErr e
+    | none => "bad-op"
+  | "getitem", ["q", q] => match parseQuery? a.unit q with
+    | some (q, sc) => uaxisAt a q sc
+    | none => "bad-op"
+  | "getitem", "ep" :: ep => match parseEpochs? ep with
+    | some e => uaxisDuring a e
+    | none => "bad-op"
+  | _, _ => "bad-op"
+
+def lookupTArray (t : C01.TVal) (op : String) (rest : List String) : String :=
+  match op, rest with
+  | "index_at", [mode, q, tol] => match parseQuery? t.unit q, parseTol? t.unit tol with
+    | some (q, _), some tol => tarrayIndexAt t.ps mode q tol
     | _, _ => "bad-op"
-  | "during" :: "uaxis" :: a :: ep => match parseU? a, parseEpochs? ep with
-    | some a, some e => uaxisDuring a e
+  | "slice_during", ep => match parseEpochs? ep with
+    | some e => withScalarEpoch e fun s p => let (lo, hi) := sliceDuring t.ps s p; showPos lo hi
+    | none => "bad-op"
+  | "slice_during_cur", ep => match parseEpochs? ep with
+    | some e => withScalarEpoch e fun s p => let (lo, hi) := sliceDuringCurrent t.ps s p; showPos lo hi
+    | none => "bad-op"
+  | "at", [q, tol] => match parseQuery? t.unit q, parseTol? t.unit tol with
+    | some ([q], _), some tol => showT t.unit false (sel t.ps (indexClosest t.ps q tol))
+    | some (q, _), some tol =>
+      if q.length ≠ t.ps.length then showErr .valueError
+      else showT t.unit false (sel t.ps (indexClosest2 t.ps q tol))
     | _, _ => "bad-op"
-  | "during" :: "tarray" :: t :: ep => match C01.parseT? t, parseEpochs? ep with
-    | some t, some e => tarrayDuring t.unit t.ps e
-    | _, _ => "bad-op"
-  | "during" :: "series" :: a :: d :: ep => match parseU? a, parseD? d, parseEpochs? ep with
-    | some a, some d, some e => seriesDuring { axis := a, data := d } e
-    | _, _, _ => "bad-op"
+  | "during", ep => match parseEpochs? ep with
+    | some e => tarrayDuring t.unit t.ps e
+    | none => "bad-op"
+  | "getitem", ["int", k] => match k.toInt? with
+    | some k => match normKey t.ps.length k with
+      | .ok i => showT t.unit true [t.ps.getD i 0]
+      | .error e => showErr e
+    | none => "bad-op"
+  | "getitem", ["q", q] => match parseQuery? t.unit q with
+    | some ([q], _) => showT t.unit false (sel t.ps (indexClosest t.ps q 1))
+    | _ => "bad-op"
+  | "getitem", "ep" :: ep => match parseEpochs? ep with
+    | some e => tarrayDuring t.unit t.ps e
+    | none => "bad-op"
+  | _, _ => "bad-op"
+
+def lookupSeries (s : Series) (op : String) (rest : List String) : String :=
+  match op, rest with
+  | "at", [q] => match parseQuery? s.axis.unit q with
+    | some (q, sc) => seriesAt s q sc
+    | none => "bad-op"
+  | "during", ep => match parseEpochs? ep with
+    | some e => seriesDuring s e
+    | none => "bad-op"
+  | "getitem", ["int", k] => match k.toInt? with
+    | some k => match s.getInt k with
+      | .ok col => "ok " ++ showBlocks "s" "s" [[col]]
+      | .error e => showErr e
+    | none => "bad-op"
+  | "getitem", ["q", q] => match parseQuery? s.axis.unit q with
+    | some (q, sc) => seriesAt s q sc
+    | none => "bad-op"
+  | "getitem", "ep" :: ep => match parseEpochs? ep with
+    | some e => seriesDuring s e
+    | none => "bad-op"
+  | _, _ => "bad-op"
+
+def lookupEvents (ev : Events) (op : String) (rest : List String) : String :=
+  match op, rest with
+  | "getitem", ["int", k] => match k.toInt? with
+    | some k => match ev.getInt k with
+      | .ok r => showEvents r
+      | .error e => showErr e
+    | none => "bad-op"
+  | "getitem", ["q", q] => match parseQuery? ev.unit q with
+    | some ([q], _) => showEvents (ev.getFloat q)
+    | _ => "bad-op"
+  | "getitem", "ep" :: ep => match parseEpochs? ep with
+    | some (.ok e) => match ev.getEpoch e with
+      | .ok r => showEvents r
+      | .error er => showErr er
+    | some (.error er) => showErr er
+    | none => "bad-op"
+  | _, _ => "bad-op"
+
+/-- the answer to the lookup `op rest` asked of a container: a function of its contents alone -/
+def lookup (c : Cont) (op : String) (rest : List String) : String :=
+  match c with
+  | .uaxis a => lookupUAxis a op rest
+  | .tarray t => lookupTArray t op rest
+  | .series s => lookupSeries s op rest
+  | .events ev => lookupEvents ev op rest
+
+def handleOne (args : List String) : String :=
+  match args with
   | ["epochs_getitem", u, t0, stop, offset, start, duration, pos] =>
     match parseEpochs? [u, t0, stop, offset, start, duration], parseNatList? pos with
     | some (.ok e), some pos =>
@@ -497,75 +578,227 @@ def handleOne (args : List String) : String :=
     | some (.ok e) => s!"ok E:{e.unit.name}:{if e.scalar then "1" else "0"}:{showIntList e.starts}:{showIntList e.stops}:{e.offset}"
     | some (.error er) => showErr er
     | none => "bad-op"
-  -- __getitem__
-  | ["getitem", "uaxis", a, "int", k] => match parseU? a, k.toInt? with
-    | some a, some k => match normKey a.n k with
-      | .ok i => showT a.unit true [a.sample i]
-      | .error e => showErr e
-    | _, _ => "bad-op"
-  | ["getitem", "uaxis", a, "q", q] => match parseU? a with
-    | some a => match parseQuery? a.unit q with
-      | some (q, sc) => uaxisAt a q sc
-      | none => "bad-op"
+  | op :: kind :: toks => match parseCont? kind toks with
+    | some (c, rest) => lookup c op rest
     | none => "bad-op"
-  | "getitem" :: "uaxis" :: a :: "ep" :: ep => match parseU? a, parseEpochs? ep with
-    | some a, some e => uaxisDuring a e
-    | _, _ => "bad-op"
-  | ["getitem", "tarray", t, "int", k] => match C01.parseT? t, k.toInt? with
-    | some t, some k => match normKey t.ps.length k with
-      | .ok i => showT t.unit true [t.ps.getD i 0]
-      | .error e => showErr e
-    | _, _ => "bad-op"
-  | ["getitem", "tarray", t, "q", q] => match C01.parseT? t with
-    | some t => match parseQuery? t.unit q with
-      | some ([q], _) => showT t.unit false (sel t.ps (indexClosest t.ps q 1))
-      | _ => "bad-op"
-    | none => "bad-op"
-  | "getitem" :: "tarray" :: t :: "ep" :: ep => match C01.parseT? t, parseEpochs? ep with
-    | some t, some e => tarrayDuring t.unit t.ps e
-    | _, _ => "bad-op"
-  | ["getitem", "series", a, d, "int", k] => match parseU? a, parseD? d, k.toInt? with
-    | some a, some d, some k => match Series.getInt { axis := a, data := d } k with
-      | .ok col => "ok " ++ showBlocks "s" "s" [[col]]
-      | .error e => showErr e
-    | _, _, _ => "bad-op"
-  | ["getitem", "series", a, d, "q", q] => match parseU? a, parseD? d with
-    | some a, some d => match parseQuery? a.unit q with
-      | some (q, sc) => seriesAt { axis := a, data := d } q sc
-      | none => "bad-op"
-    | _, _ => "bad-op"
-  | "getitem" :: "series" :: a :: d :: "ep" :: ep => match parseU? a, parseD? d, parseEpochs? ep with
-    | some a, some d, some e => seriesDuring { axis := a, data := d } e
-    | _, _, _ => "bad-op"
-  | ["getitem", "events", t, d, "int", k] => match C01.parseT? t, parseD? d, k.toInt? with
-    | some t, some d, some k => match Events.getInt { time := t.ps, unit := t.unit, data := d } k with
-      | .ok ev => showEvents ev
-      | .error e => showErr e
-    | _, _, _ => "bad-op"
-  | ["getitem", "events", t, d, "q", q] => match C01.parseT? t, parseD? d with
-    | some t, some d => match parseQuery? t.unit q with
-      | some ([q], _) => showEvents (Events.getFloat { time := t.ps, unit := t.unit, data := d } q)
-      | _ => "bad-op"
-    | _, _ => "bad-op"
-  | "getitem" :: "events" :: t :: d :: "ep" :: ep => match C01.parseT? t, parseD? d, parseEpochs? ep with
-    | some t, some d, some (.ok e) => match Events.getEpoch { time := t.ps, unit := t.unit, data := d } e with
-      | .ok ev => showEvents ev
-      | .error er => showErr er
-    | some _, some _, some (.error er) => showErr er
-    | _, _, _ => "bad-op"
   | _ => "bad-op"
 
-/-- split a token list at the `;` tokens -/
-def splitSteps (toks : List String) : List (List String) :=
-  toks.foldr (fun t acc => if t = ";" then [] :: acc else match acc with
+/-! ### in-place changes and operation histories
+
+The state of a history is the container's contents (`Cont`).  A step is a lookup (any `op rest`
+of `lookup`) or an in-place change.  HOW the change reaches the buffer in python (`ta[i] = v` on
+the object, through a view of it, through its parent, `+=`, a ufunc with `out=`, `sort`, `put`,
+`flat`, `copyto`) is not part of the specification: every route to the same contents is the same
+change. -/
+
+/-- in-place changes of the samples of a time array (`Events.time` likewise) -/
+inductive TChange where
+  /-- one sample is overwritten (`ta[i] = v`, `view[j] = v`, `flat`, `put`, through the parent) -/
+  | setAt (i : Nat) (v : Int)
+  /-- `ta += x` / `np.add(ta, x, out=ta)`: equally long operand, or one element broadcast -/
+  | add (xs : List Int)
+  | sub (xs : List Int)
+  /-- `ta *= k`, `np.multiply(ta, k, out=ta)`, `np.negative(ta, out=ta)` -/
+  | mul (k : Int)
+  /-- `ta.sort()` -/
+  | sort
+  /-- `ta[::-1].sort()`: descending -/
+  | sortDesc
+  /-- `ta[:] = ta[::-1].copy()` -/
+  | reverse
+  /-- `np.copyto(ta, x)`, `ta[...] = x` -/
+  | assign (xs : List Int)
+  deriving Repr, DecidableEq
+
+/-- element-wise with numpy's in-place broadcasting: equal lengths, or a single element -/
+def inplaceZip (f : Int → Int → Int) (ts xs : List Int) : Except Err (List Int) :=
+  if xs.length = ts.length then .ok (List.zipWith f ts xs)
+  else match xs with
+    | [x] => .ok (ts.map fun t => f t x)
+    | _ => .error .valueError
+
+def TChange.apply (ts : List Int) : TChange → Except Err (List Int)
+  | .setAt i v => if i < ts.length then .ok (ts.set i v) else .error .indexError
+  | .add xs => inplaceZip (· + ·) ts xs
+  | .sub xs => inplaceZip (· - ·) ts xs
+  | .mul k => .ok (ts.map (· * k))
+  | .sort => .ok (ts.mergeSort (fun a b => decide (a ≤ b)))
+  | .sortDesc => .ok (ts.mergeSort (fun a b => decide (a ≤ b))).reverse
+  | .reverse => .ok ts.reverse
+  | .assign xs => inplaceZip (fun _ x => x) ts xs
+
+namespace UAxis
+
+/-- `_set_sampling`: the attributes describe `n` samples from `t0` at interval `dt` -/
+def reset (a : UAxis) (t0 dt : Int) : UAxis := { a with t0 := t0, dt := dt, dur := (a.n : Int) * dt }
+
+/-- all consecutive differences equal the first one (`np.diff`, `dv != dv[0]`) -/
+def uniformDiffs : List Int → Bool
+  | x :: y :: rest => (List.zipWith (fun a b => b - a) (y :: rest) rest).all (· == y - x)
+  | _ => true
+
+/-- `__iadd__` (`sign = 1`) / `__isub__` (`sign = -1`) with a 0-d operand (`sc`) or a 1-d one -/
+def shifted (a : UAxis) (sign : Int) (xs : List Int) (sc : Bool) : Except Err UAxis :=
+  if sc then .ok (a.reset (a.t0 + sign * xs.headD 0) a.dt)
+  else match xs with
+    | [] => .error .valueError                      -- an empty operand cannot shift a time axis
+    | [x] => .ok (a.reset (a.t0 + sign * x) a.dt)    -- broadcast by numpy: a shift
+    | x :: y :: rest =>
+      if !uniformDiffs (x :: y :: rest) then .error .valueError
+      else
+        let d := y - x
+        if d ≠ 0 ∧ a.dt + sign * d = 0 then .error .valueError      -- would collapse the axis
+        else if (x :: y :: rest).length ≠ a.n then .error .valueError  -- numpy: shapes do not match
+        else .ok (a.reset (a.t0 + sign * x) (a.dt + sign * d))
+
+/-- `__imul__` -/
+def scaled (a : UAxis) (k : Int) : Except Err UAxis :=
+  if k = 0 then .error .valueError else .ok (a.reset (a.t0 * k) (a.dt * k))
+
+/-- `__idiv__`: only a division that leaves whole numbers of the base unit -/
+def divided (a : UAxis) (k : Int) : Except Err UAxis :=
+  if k = 0 ∨ a.t0 % k ≠ 0 ∨ a.dt % k ≠ 0 then .error .valueError
+  else .ok (a.reset (Int.fdiv a.t0 k) (Int.fdiv a.dt k))
+
+end UAxis
+
+/-- in-place changes of a uniform axis (`TimeSeries.time` likewise) -/
+inductive UChange where
+  | add (xs : List Int) (sc : Bool)
+  | sub (xs : List Int) (sc : Bool)
+  | mul (k : Int)
+  | div (k : Int)
+  /-- `x - axis`: subtract, then change the sign (only as a NEW object: python has no in-place form) -/
+  | rsub (xs : List Int) (sc : Bool)
+  deriving Repr, DecidableEq
+
+def UChange.apply (a : UAxis) : UChange → Except Err UAxis
+  | .add xs sc => a.shifted 1 xs sc
+  | .sub xs sc => a.shifted (-1) xs sc
+  | .mul k => a.scaled k
+  | .div k => a.divided k
+  | .rsub xs sc => (a.shifted (-1) xs sc).bind fun b => b.scaled (-1)
+
+/-- `axis + x`, `axis - x`, `x + axis`, `x - axis` as a NEW object (INTENDED): the operation is done in place on a
+copy, so that the result's attributes describe its samples; when the operand is refused in place (not uniform,
+would collapse the axis, a longer array on a one-sample axis) the result is an ordinary array of times —
+element-wise under numpy broadcasting, `ValueError` when the shapes do not match.  For what the contents are
+concerned an accepted derivation is the in-place change (`hist` lines name it as the route `derived`). -/
+def UAxis.derive (a : UAxis) (ch : UChange) : Except Err Cont :=
+  match ch.apply a with
+  | .ok b => .ok (.uaxis b)
+  | .error _ =>
+    let plain (f : Int → Int → Int) (xs : List Int) (sc : Bool) : Except Err Cont :=
+      match C01.broadcast f a.times false xs sc with
+      | .ok (ps, _) => .ok (.tarray { ps := ps, unit := a.unit, scalar := false })
+      | .error _ => .error .valueError
+    match ch with
+    | .add xs sc => plain (· + ·) xs sc
+    | .sub xs sc => plain (· - ·) xs sc
+    | .rsub xs sc => plain (fun t x => x - t) xs sc
+    | _ => .error .valueError
+
+inductive Change where
+  | tarr (c : TChange)
+  | uax (c : UChange)
+  deriving Repr, DecidableEq
+
+/-- the change applied to the contents of a container; data arrays stay where they are -/
+def Change.apply (c : Cont) : Change → Except Err Cont
+  | .tarr ch => match c with
+    | .tarray t => (ch.apply t.ps).map fun ps => .tarray { t with ps := ps }
+    | .events ev => (ch.apply ev.time).map fun ps => .events { ev with time := ps }
+    | _ => .error .notImplemented
+  | .uax ch => match c with
+    | .uaxis a => (ch.apply a).map .uaxis
+    | .series s => (ch.apply s.axis).map fun a => .series { s with axis := a }
+    | _ => .error .notImplemented
+
+inductive HStep where
+  | look (op : String) (rest : List String)
+  | change (ch : Change)
+  deriving Repr, DecidableEq
+
+def showU (a : UAxis) : String := s!"U:{a.unit.name}:{a.t0}:{a.dt}:{a.n}:{a.dur}"
+
+/-- the time contents as the harness reads them back from the real object after a change -/
+def showCont : Cont → String
+  | .uaxis a => showU a
+  | .tarray t => C01.showT t
+  | .series s => showU s.axis
+  | .events ev => C01.showT { ps := ev.time, unit := ev.unit, scalar := false }
+
+/-- one step: a lookup answers from the current contents and leaves them alone; an accepted change
+replaces them; a refused change leaves them alone -/
+def stepHist (st : Cont × List String) : HStep → Cont × List String
+  | .look op rest => (st.1, lookup st.1 op rest :: st.2)
+  | .change ch => match ch.apply st.1 with
+    | .ok c' => (c', ("ok " ++ showCont c') :: st.2)
+    | .error e => (st.1, showErr e :: st.2)
+
+/-- final contents and the outputs (one per step, in order) of a history -/
+def runHist (c : Cont) (h : List HStep) : Cont × List String :=
+  let r := h.foldl stepHist (c, [])
+  (r.1, r.2.reverse)
+
+def parseSc? (s : String) : Option Bool := if s = "1" then some true else if s = "0" then some false else none
+
+/-- `<change> <arguments>`, values in picoseconds -/
+def parseChange? (toks : List String) : Option Change :=
+  match toks with
+  | ["set", i, v] => do let i ← i.toNat?; let v ← v.toInt?; pure (.tarr (.setAt i v))
+  | ["add", xs] => (parseIntList? xs).map fun xs => .tarr (.add xs)
+  | ["sub", xs] => (parseIntList? xs).map fun xs => .tarr (.sub xs)
+  | ["mul", k] => k.toInt?.map fun k => .tarr (.mul k)
+  | ["sort"] => some (.tarr .sort)
+  | ["sortdesc"] => some (.tarr .sortDesc)
+  | ["reverse"] => some (.tarr .reverse)
+  | ["assign", xs] => (parseIntList? xs).map fun xs => .tarr (.assign xs)
+  | ["uadd", sc, xs] => do let sc ← parseSc? sc; let xs ← parseIntList? xs; pure (.uax (.add xs sc))
+  | ["usub", sc, xs] => do let sc ← parseSc? sc; let xs ← parseIntList? xs; pure (.uax (.sub xs sc))
+  | ["umul", k] => k.toInt?.map fun k => .uax (.mul k)
+  | ["udiv", k] => k.toInt?.map fun k => .uax (.div k)
+  | ["ursub", sc, xs] => do let sc ← parseSc? sc; let xs ← parseIntList? xs; pure (.uax (.rsub xs sc))
+  | _ => none
+
+/-- `L <op> <arguments>` (a lookup, written as in the one-shot protocol without the container) or
+`C <route> <change>`: the route by which python reaches the buffer is named on the line for the
+record and IGNORED here — it is not part of the specification -/
+def parseStep? (toks : List String) : Option HStep :=
+  match toks with
+  | "L" :: op :: rest => some (.look op rest)
+  | "C" :: _route :: ch => (parseChange? ch).map .change
+  | _ => none
+
+/-- split a token list at the tokens equal to `sep` -/
+def splitAt (sep : String) (toks : List String) : List (List String) :=
+  toks.foldr (fun t acc => if t = sep then [] :: acc else match acc with
     | [] => [[t]]
     | x :: rest => (t :: x) :: rest) [[]]
 
-/-- one line = one operation, or `seq step ; step ; …`: the model is pure, so the answer to a
-sequence is the answer to each step with the arguments as written -/
+def splitSteps (toks : List String) : List (List String) := splitAt ";" toks
+
+/-- `hist <kind> <container tokens> | <step> | <step> …` with steps `L <op> <arguments>` (a lookup,
+written as in the one-shot protocol without the container) and `C <change>` -/
+def handleHist (kind : String) (toks : List String) : String :=
+  match splitAt "|" toks with
+  | cont :: steps => match parseCont? kind cont, steps.mapM parseStep? with
+    | some (c, []), some h => " ; ".intercalate (runHist c h).2
+    | _, _ => "bad-op"
+  | [] => "bad-op"
+
+/-- one line = one operation, `seq step ; step ; …` (the model is pure, so the answer to a sequence
+of lookups is the answer to each step with the arguments as written), `hist …`, or
+`derive uaxis <axis> <uadd|usub|ursub> <0-d?> <operand ps>` (arithmetic that makes a NEW object) -/
 def handle (args : List String) : String :=
   match args with
   | "seq" :: rest => " ; ".intercalate ((splitSteps rest).map handleOne)
+  | "hist" :: kind :: rest => handleHist kind rest
+  | "derive" :: "uaxis" :: a :: ch => match parseU? a, parseChange? ch with
+    | some a, some (.uax c) => match a.derive c with
+      | .ok c' => "ok " ++ showCont c'
+      | .error e => showErr e
+    | _, _ => "bad-op"
   | _ => handleOne args
 
 end Nitime.C03
